@@ -1297,6 +1297,10 @@ def intrinsic(eng, st, fr, callee, base, args, R):
         good = 1 if isopt else 0
         if not eng.panic_if(st, fr, d != good, f'{base} on {"None" if isopt else "Err"}'): return None
         return R(o.payload[good][0] if o.payload.get(good) else Agg([], '()'))
+    if base.startswith('Option::') and base.endswith('::unwrap_or'):
+        o = args[0]; d = o.disc()
+        some = o.payload.get(1, [None])[0]
+        return R(ite_val(d == 1, some, args[1]) if some is not None else args[1])
     if base.startswith('Option::') and base.endswith(('::is_some', '::is_none')):
         o = deref(args[0]); return R(V(o.disc() == (1 if base.endswith('is_some') else 0), 'bool'))
     if base.startswith('Result::') and base.endswith(('::is_ok', '::is_err')):
@@ -1307,9 +1311,31 @@ def intrinsic(eng, st, fr, callee, base, args, R):
         return R(args[0] if base.endswith('must_use') else Opaque('string', tuple(args)))
     if base.endswith('as std::string::ToString>::to_string') or base.endswith('as ToString>::to_string') or base.endswith('as ToOwned>::to_owned') or base.endswith('as From<&str>>::from'):
         return R(Opaque('string', tuple(args)))
-    if base.startswith('core::fmt::rt::Argument'): return R(Opaque('fmtarg', (base.split('::')[-1], args[0])))
+    if base.startswith('core::fmt::rt::Argument'): return R(Opaque('fmtarg', (base.split('::')[-1], deref(args[0]))))
     if base.startswith('Arguments::') or base.startswith('std::fmt::Arguments::') or base.startswith('core::fmt::Arguments'):
-        return R(Opaque('fmtargs', tuple(args)))
+        # keep the template and the (already dereferenced) argument list: [(formatting trait, value), ...]
+        tpl = args[0] if args and isinstance(args[0], Str) else None
+        lst = None
+        if len(args) > 1:
+            arr = deref(args[1])
+            if isinstance(arr, Agg): lst = tuple((a.args[0], a.args[1]) if isinstance(a, Opaque) and a.tag == 'fmtarg' else ('?', a) for a in arr.f)
+        return R(Opaque('fmtargs', (tpl, lst)))
+    if (base.startswith('Result::') and base.endswith(('::map', '::map_err'))) or (base.startswith('Option::') and base.endswith('::map')):
+        o = args[0]; clo = args[1]
+        cid = None
+        if isinstance(clo, Opaque) and clo.tag == 'fnitem': cid = re.search(r'closure@([^}]*)', clo.args[0])
+        if isinstance(clo, Closure): cid = re.search(r'(.*)', clo.cid)
+        if cid is None: raise Unsupported(f'{base}: closure {clo}')
+        f = eng.lookup('<{closure@%s} as FnOnce<x>>::call_once' % cid.group(1))
+        if f is None: raise Unsupported(f'{base}: closure body not found')
+        which = 1 if (base.endswith('map_err')) else (1 if base.startswith('Option::') else 0)
+        pl = dict(o.payload)
+        if pl.get(which):
+            fr.locals['__mapclo'] = clo if isinstance(clo, Closure) else Closure(cid.group(1), [])
+            val = eng.merged_pure(st, f, [fr.locals['__mapclo'], pl[which][0]])
+            if val is NotImplemented or val is None: raise Unsupported(f'{base}: closure not pure')
+            pl[which] = [val]
+        return R(Enum(o.d, pl, o.ty))
     if base in ('std::mem::align_of', 'std::mem::size_of', 'core::mem::align_of', 'core::mem::size_of'):
         ty = re.search(r'::<(.+)>$', callee).group(1)
         if ty in INT_TYPES: return R(V(BitVecVal(bvw(ty)[0] // 8, 64), 'usize'))
